@@ -214,7 +214,18 @@ func (ev *refEval) visit(k refNode) int {
 
 	f := &formula{kind: fOr}
 	fan := 0
-	for _, t := range ev.byNode[k] {
+	// Strict mode: a relationship stored on a relation that is defined by a
+	// permission expression does not count - the permission is what its
+	// expression says (keto's documented strict-mode rule).
+	stored := ev.byNode[k]
+	if ev.cfg.Strict && ev.cfg.Enc != EncNone {
+		if ns := ev.cfg.FindNS(k.NS); ns != nil {
+			if rd := ns.FindRel(k.Rel); rd != nil && rd.Rewrite != nil {
+				stored = nil
+			}
+		}
+	}
+	for _, t := range stored {
 		if t.Sub.Equal(ev.subj) {
 			f.kids = append(f.kids, &formula{kind: fConst, val: true})
 		}
